@@ -95,6 +95,27 @@ fn car_rv(c: &Value, name: &str, c0: f64, vmax: f64) -> RailVehicle {
     build::rail_vehicle(&p, name)
 }
 
+/// The shipped default hybrid locomotive (MW scale: HybridLoco hard-codes a 50 kW generator aux load, so it cannot be
+/// scaled down) with its top-level mass set to an integer so that the train stays toy scale.
+fn hybrid_loco(p: &Value) -> anyhow::Result<Locomotive> {
+    let mut l = build::patched(
+        &Locomotive::default_hybrid_electric_loco(),
+        &[("mass", json!(iv(p, "mass", 1024) as f64)), ("ballast_mass", Value::Null), ("baseline_mass", Value::Null),
+          ("mu", Value::Null), ("force_max", json!(1.0e6))],
+    )?;
+    l.set_save_interval(None);
+    l.init()?;
+    Ok(l)
+}
+
+fn toy_consist(c: &Value) -> anyhow::Result<Consist> {
+    let locos: Vec<Locomotive> = ga(c, "units")
+        .iter()
+        .map(|u| if u.get("kind").and_then(|x| x.as_str()) == Some("hybrid") { hybrid_loco(u) } else { build::loco(u) })
+        .collect::<anyhow::Result<_>>()?;
+    build::consist_of(locos, gs(c, "pdct"), Some(1))
+}
+
 fn train_config(desc: &Value, vmax: f64) -> anyhow::Result<TrainConfig> {
     let c0 = iv(desc, "c0", 0) as f64;
     let cars = ga(desc, "cars");
@@ -213,7 +234,7 @@ fn run_ss(desc: &Value, tr: &mut Tracer) -> anyhow::Result<()> {
         }
     };
     let tc = train_config(desc, vmax)?;
-    let con = build::consist(ga(&desc["consist"], "units"), gs(&desc["consist"], "pdct"), Some(1))?;
+    let con = toy_consist(&desc["consist"])?;
     let con_mass = con.mass()?.map(|m| m.value).unwrap_or(0.0);
     let tq: Vec<i64> = ga(desc, "t").iter().map(|x| x.as_i64().unwrap()).collect();
     let vq: Vec<i64> = ga(desc, "v").iter().map(|x| x.as_i64().unwrap()).collect();
@@ -222,10 +243,16 @@ fn run_ss(desc: &Value, tr: &mut Tracer) -> anyhow::Result<()> {
         vq.iter().map(|x| *x as f64 / SV).collect(),
         None,
     );
-    // the initial state agrees with the first trace point (time and speed)
-    let init = InitTrainState::new(Some(uc::S * (tq[0] as f64 / ST)), None, Some(uc::MPS * (vq[0] as f64 / SV)));
+    // the initial state agrees with the first trace point in speed, and in time unless "tinit":"default" asks for
+    // the default clock (0 s) under a trace whose clock starts elsewhere; "x0" [m] places the front mid-route
+    let t0sync = desc.get("tinit").and_then(|x| x.as_str()) != Some("default");
+    let init = InitTrainState::new(
+        if t0sync { Some(uc::S * (tq[0] as f64 / ST)) } else { None },
+        desc.get("x0").and_then(|x| x.as_f64()).map(|x| uc::M * x),
+        Some(uc::MPS * (vq[0] as f64 / SV)),
+    );
     let tsb = TrainSimBuilder::new("t".into(), tc.clone(), con, None, None, Some(init));
-    let mut sim = match tsb.make_set_speed_train_sim(&net, &route, st, Some(1)) {
+    let (mut sim, _tp, parts_path, parts_res, parts_brake) = match tsb.make_set_speed_train_sim_and_parts(&net, &route, st, Some(1)) {
         Ok(s) => s,
         Err(e) => {
             tr.emit(json!({"ev":"Rejected","what":"builder","msg":errtxt(&e)}));
@@ -259,7 +286,7 @@ fn run_ss(desc: &Value, tr: &mut Tracer) -> anyhow::Result<()> {
         "override": desc.get("train_mass").and_then(|x| x.as_i64()).unwrap_or(-1),
         "con_mass": q.q(con_mass, 1.0), "towed": q.q(towed, 1.0),
         "len": q.q(sim.state.length.value, SO),
-        "tt": tq, "tv": vq, "exact": q.exact,
+        "tt": tq, "tv": vq, "exact": q.exact, "t0sync": t0sync,
     }));
     tr.emit(ss_step_json(0, &sim.state, &sim.loco_con, towed));
     let mut steps = 0usize;
@@ -277,6 +304,11 @@ fn run_ss(desc: &Value, tr: &mut Tracer) -> anyhow::Result<()> {
         }
         steps += 1;
     }
+    // trip getters live on SpeedLimitTrainSim only: read them through one assembled from this run's final state
+    let days = iv(desc, "days", 7) as i32;
+    let slts = SpeedLimitTrainSim::new("t".into(), &[], &[], sim.loco_con.clone(), sim.state, parts_res, parts_path,
+                                       parts_brake, Some(1), Some(days), None);
+    tr.emit(get_json(&slts, days));
     tr.emit(json!({"ev":"Done","steps":steps,"i":sim.state.i,"n":sim.speed_trace.len(),
                    "hist":sim.history.len(),"chist":sim.loco_con.history.len()}));
     Ok(())
@@ -300,17 +332,35 @@ fn expand_locate(desc: &Value) -> Value {
             json!({"len": l * 16, "elevs": pts})
         })
         .collect();
-    let mut t = vec![0i64];
+    // variations derived from the case itself: clock origin (0 / 1 h with the default initial clock / negative),
+    // the first front reached by initial placement instead of by a step (mid-route start), a hybrid in the consist
+    let sel = pos.iter().sum::<i64>() + 7 * lens.len() as i64;
+    let mid = pos.len() >= 3 && sel % 2 == 0;
+    let pos: Vec<i64> = if mid { pos[1..].to_vec() } else { pos };
+    let t0 = match sel % 3 { 0 => 0, 1 => 4 * 3600, _ => -4 * 1024 };
+    let mut t = vec![t0];
     let mut v = vec![16i64];
     for w in pos.windows(2) {
         let d = w[1] - w[0]; // half units of 8 m at 8 m/s: d seconds
         t.push(t.last().unwrap() + d * ST as i64);
         v.push(16);
     }
-    json!({"kind":"ss","links":links,
+    let mut units = vec![json!({"kind":"conv","rfc":65536,"rgen":65536,"redrv":65536,"mass":1024})];
+    if sel % 5 == 0 {
+        units.push(json!({"kind":"hybrid","mass":1024}));
+    }
+    let days = [1i64, 7, 365][(sel % 3) as usize];
+    let mut d = json!({"kind":"ss","links":links,
            "cars":[{"n":1,"len":16,"mass":1024,"axles":4,"rot":16,"bearing":2,"rolling":4,"davis_b":1,"cda":8}],
-           "c0":0,"consist":{"units":[{"kind":"conv","rfc":65536,"rgen":65536,"redrv":65536,"mass":1024}],"pdct":"RESGreedy"},
-           "t":t,"v":v})
+           "c0":0,"consist":{"units":units,"pdct":"RESGreedy"},
+           "t":t,"v":v,"days": days});
+    if mid {
+        d["x0"] = json!(pos[0] * 8);
+    }
+    if sel % 3 == 1 {
+        d["tinit"] = json!("default");
+    }
+    d
 }
 
 // ---------------------------------------------------------------------------------------------
@@ -413,6 +463,22 @@ fn triple(plain: f64, ann: f64, raw: f64) -> Value {
     json!([qi(plain, sc), qi(ann, sc), qi(raw, sc)])
 }
 
+fn get_json(sim: &SpeedLimitTrainSim, days: i32) -> Value {
+    let s = &sim.state;
+    let km = s.total_dist.value / 1000.0;
+    let mg = s.mass_freight.value / 1000.0;
+    let fuel = sim.loco_con.state.energy_fuel.value;
+    let res = sim.loco_con.state.energy_res.value;
+    json!({"ev":"Get","days":days,
+        "fuel": triple(sim.get_energy_fuel(false).value, sim.get_energy_fuel(true).value, fuel),
+        "res": triple(sim.get_net_energy_res(false).value, sim.get_net_energy_res(true).value, res),
+        "km": triple(sim.get_kilometers(false), sim.get_kilometers(true), km),
+        "mgkm": triple(sim.get_megagram_kilometers(false), sim.get_megagram_kilometers(true), 0.0),
+        // Mg.km is a product of two saved quantities: the spec multiplies them itself
+        "mg": qi(mg, 16.0), "kmq": qi(km, 64.0), "mgkmq": qi(sim.get_megagram_kilometers(false), 1024.0),
+    })
+}
+
 fn run_sl(desc: &Value, tr: &mut Tracer) -> anyhow::Result<()> {
     let net = match build::network(&desc["net"]) {
         Ok(n) => n,
@@ -437,7 +503,10 @@ fn run_sl(desc: &Value, tr: &mut Tracer) -> anyhow::Result<()> {
     con.set_save_interval(Some(1));
     let days = gi(desc, "days") as i32;
     let lm = build::location_map(&[1], &[n as u32]);
-    let tsb = TrainSimBuilder::new("t".into(), tc, con, Some("A".into()), Some("B".into()), None);
+    // "x0_extra" [m]: the front starts that far beyond the train's own length (mid-route start)
+    let tlen = tc.make_train_params()?.length;
+    let init = desc.get("x0_extra").and_then(|x| x.as_f64()).map(|x| InitTrainState::new(None, Some(tlen + uc::M * x), None));
+    let tsb = TrainSimBuilder::new("t".into(), tc, con, Some("A".into()), Some("B".into()), init);
     let mut sim = tsb.make_speed_limit_train_sim(&lm, Some(1), Some(days), None)?;
     if let Err(e) = sim.extend_path(net.as_ref(), &route) {
         tr.emit(json!({"ev":"Rejected","what":"extend_path","msg":errtxt(&e)}));
@@ -451,7 +520,7 @@ fn run_sl(desc: &Value, tr: &mut Tracer) -> anyhow::Result<()> {
         .collect();
     tr.emit(json!({"ev":"Hdr","mode":"sl","st":LT as i64,"sv":LV as i64,"so":LO as i64,
         "links":hl,"curves":[],"cars":[],"override":-1,"con_mass":0,"towed":0,
-        "len": qi(sim.state.length.value, LO),"tt":[],"tv":[],"exact":false,"days":days}));
+        "len": qi(sim.state.length.value, LO),"tt":[],"tv":[],"exact":false,"t0sync":true,"days":days}));
     tr.emit(sl_step_json(0, &sim.state, &sim.loco_con));
     let cap = gi(desc, "cap") as usize;
     let mut steps = 0usize;
@@ -475,20 +544,7 @@ fn run_sl(desc: &Value, tr: &mut Tracer) -> anyhow::Result<()> {
         }
         steps += 1;
     }
-    // trip outputs
-    let s = &sim.state;
-    let km = s.total_dist.value / 1000.0;
-    let mg = s.mass_freight.value / 1000.0;
-    let fuel = sim.loco_con.state.energy_fuel.value;
-    let res = sim.loco_con.state.energy_res.value;
-    tr.emit(json!({"ev":"Get","days":days,
-        "fuel": triple(sim.get_energy_fuel(false).value, sim.get_energy_fuel(true).value, fuel),
-        "res": triple(sim.get_net_energy_res(false).value, sim.get_net_energy_res(true).value, res),
-        "km": triple(sim.get_kilometers(false), sim.get_kilometers(true), km),
-        "mgkm": triple(sim.get_megagram_kilometers(false), sim.get_megagram_kilometers(true), 0.0),
-        // Mg.km is a product of two saved quantities: the spec multiplies them itself
-        "mg": qi(mg, 16.0), "kmq": qi(km, 64.0), "mgkmq": qi(sim.get_megagram_kilometers(false), 1024.0),
-    }));
+    tr.emit(get_json(&sim, days));
     tr.emit(json!({"ev":"Done","steps":steps,"result":result,"hist":sim.history.len(),"chist":sim.loco_con.history.len()}));
     Ok(())
 }
@@ -588,9 +644,22 @@ fn gen_ss(r: &mut Rng, neg: bool) -> Value {
             }
         })
         .collect();
+    let mut units = units;
+    if r.chance(1, 4) {
+        // a hybrid next to (or instead of) the toy units: battery energy then comes from two kinds of locomotive
+        if units.len() >= 3 || r.chance(1, 3) {
+            units.pop();
+        }
+        units.push(json!({"kind":"hybrid","mass":1024}));
+    }
+    // start: front at the train's own length (default) or mid-route
+    let x0 = if r.chance(1, 3) { tlen + r.range(1, ((total - tlen - 16) / 2).max(1)) } else { tlen };
     // trace: irregular dyadic time stamps, |accel| <= 1/2 m/s2, speeds in 1/2 m/s, inside the path
-    let room = (total - tlen - 8) * 16; // in 1/16 m
-    let mut t = vec![r.range(0, 8)];
+    let room = (total - x0 - 8) * 16; // in 1/16 m
+    // clock: starts near 0, at a large dyadic offset, or negative; the initial state follows it or keeps the default 0
+    let t0 = match r.range(0, 5) { 0 | 1 => r.range(0, 8), 2 => 0, 3 => 4 * 3600 + r.range(0, 8), 4 => 4 * 4096 * r.range(1, 16), _ => -4 * r.range(1, 2048) };
+    let tinit_default = r.chance(1, 2);
+    let mut t = vec![t0];
     let mut v = vec![if r.chance(1, 2) { 0 } else { r.range(0, 24) }];
     let mut x = 0i64;
     let nsteps = r.range(6, 48);
@@ -629,6 +698,13 @@ fn gen_ss(r: &mut Rng, neg: bool) -> Value {
     if ovr {
         d["train_mass"] = json!(r.range(4, 24) * 1024);
     }
+    if x0 != tlen {
+        d["x0"] = json!(x0);
+    }
+    if tinit_default {
+        d["tinit"] = json!("default");
+    }
+    d["days"] = json!(*r.pick(&[1i64, 7, 30, 365, 1461]));
     d
 }
 
@@ -668,8 +744,12 @@ fn gen_sl(r: &mut Rng, tier: &str) -> Value {
             cars.push(json!({"type": t2, "n": r.range(5, 25)}));
         }
     }
-    json!({"kind":"sl","net":{"oscale":1,"vscale":1,"escale":100,"links":links},"cars":cars,
-           "days": *r.pick(&[1i64, 7, 30, 365, 1461]),"cap": if tier == "quick" { 2500 } else { 6000 }})
+    let mut d = json!({"kind":"sl","net":{"oscale":1,"vscale":1,"escale":100,"links":links},"cars":cars,
+           "days": *r.pick(&[1i64, 7, 30, 365, 1461]),"cap": if tier == "quick" { 2500 } else { 6000 }});
+    if r.chance(1, 2) {
+        d["x0_extra"] = json!(r.range(1, 800));
+    }
+    d
 }
 
 fn gen(seed: u64, n: usize, tier: &str) -> Vec<Value> {
